@@ -3333,14 +3333,21 @@ impl<F: VfsFile> LSMIterator for BPlusTreeIterator<'_, F> {
 				.keys
 				.partition_point(|k| self.tree.compare.compare(k, target) == Ordering::Less);
 
-			// If we're past the end of this leaf, advance to next
-			if self.current_idx >= leaf.keys.len()
-				&& !self
-					.advance_to_next_leaf()
-					.map_err(|e| crate::error::Error::BPlusTree(e.to_string()))?
-			{
-				self.exhausted = true;
-				return Ok(false);
+			// If we're past the end of this leaf, advance to the next leaf that
+			// holds an entry (deletes can leave empty leaves in the chain)
+			if self.current_idx >= leaf.keys.len() {
+				loop {
+					if !self
+						.advance_to_next_leaf()
+						.map_err(|e| crate::error::Error::BPlusTree(e.to_string()))?
+					{
+						self.exhausted = true;
+						return Ok(false);
+					}
+					if self.current_leaf.as_ref().is_some_and(|l| !l.keys.is_empty()) {
+						break;
+					}
+				}
 			}
 		}
 
@@ -3415,15 +3422,21 @@ impl<F: VfsFile> LSMIterator for BPlusTreeIterator<'_, F> {
 
 		self.current_idx += 1;
 
-		// Check if we need to advance to next leaf
+		// Check if we need to advance to the next leaf that holds an entry
 		if let Some(leaf) = &self.current_leaf {
-			if self.current_idx >= leaf.keys.len()
-				&& !self
-					.advance_to_next_leaf()
-					.map_err(|e| crate::error::Error::BPlusTree(e.to_string()))?
-			{
-				self.exhausted = true;
-				return Ok(false);
+			if self.current_idx >= leaf.keys.len() {
+				loop {
+					if !self
+						.advance_to_next_leaf()
+						.map_err(|e| crate::error::Error::BPlusTree(e.to_string()))?
+					{
+						self.exhausted = true;
+						return Ok(false);
+					}
+					if self.current_leaf.as_ref().is_some_and(|l| !l.keys.is_empty()) {
+						break;
+					}
+				}
 			}
 		}
 
@@ -3442,13 +3455,18 @@ impl<F: VfsFile> LSMIterator for BPlusTreeIterator<'_, F> {
 		}
 
 		if self.current_idx == 0 {
-			// Need to retreat to previous leaf
-			if !self
-				.retreat_to_prev_leaf()
-				.map_err(|e| crate::error::Error::BPlusTree(e.to_string()))?
-			{
-				self.exhausted = true;
-				return Ok(false);
+			// Need to retreat to the previous leaf that holds an entry
+			loop {
+				if !self
+					.retreat_to_prev_leaf()
+					.map_err(|e| crate::error::Error::BPlusTree(e.to_string()))?
+				{
+					self.exhausted = true;
+					return Ok(false);
+				}
+				if self.current_leaf.as_ref().is_some_and(|l| !l.keys.is_empty()) {
+					break;
+				}
 			}
 		} else {
 			self.current_idx -= 1;
